@@ -70,7 +70,24 @@ def run_conversion(ctx, name, T, m, t, p, **kw):
     args = builder(ctx, it, st, T, m, t, p, kw)
     key = ctx.entry(pat.format(T=T))
     outs = it.call_fn(st, key, args)
-    return it, outs
+    return it, drop_empty_image_outcomes(ctx, outs)
+
+def drop_empty_image_outcomes(ctx, outs):
+    """Ok outcomes reached only for an image without pixels (path condition contains width == 0 or height == 0 of the
+    input) say nothing about any pixel: an early `if w == 0 { return .. }` must not make the per-pixel rules see 'two
+    successful outcomes'.  They are dropped when another successful outcome exists."""
+    def empty(s):
+        for c in s.pc:
+            if c.op == 'eq':
+                for a, b in ((c.args[0], c.args[1]), (c.args[1], c.args[0])):
+                    if b.is_const and b.val == 0 and a.op == 'sym' and isinstance(a.args[0], str) and a.args[0].endswith(('.width', '.height')):
+                        return True
+        return False
+    ok = lambda v: (not isinstance(v, EnumV)) or is_ok(ctx.crate, v)
+    good = [(s, v) for s, v in outs if ok(v) and not empty(s)]
+    if not good:
+        return outs
+    return [(s, v) for s, v in outs if not (ok(v) and empty(s))]
 
 # ---------------------------------------------------------------------------------
 # Inputs obtained through the public constructors: only what a constructor's Ok path
@@ -158,5 +175,5 @@ def run_validated(ctx, name, T, m, t, p, **kw):
     key = ctx.entry(CONVERSIONS[name][0].format(T=T))
     results = []
     for s, args in inputs:
-        results.append(it.call_fn(s, key, args))
+        results.append(drop_empty_image_outcomes(ctx, it.call_fn(s, key, args)))
     return it, marks, results
